@@ -427,7 +427,10 @@ def rule_304(ck):
         ck.ob("C27.conditional", fi, c, ok, "an unparseable If-Modified-Since cannot escape (ValueError/TypeError/IndexError/OverflowError from the date parser are all handled)")
         for h in {id(h): h for h in hs if h is not None}.values():
             rr = [x for st in h.body for x in q.walk_local(st) if isinstance(x, ast.Return)]
-            ck.ob("C27.conditional", fi, h, bool(rr) and all(q.is_const(x.value, False) for x in rr) and isinstance(h.body[-1], ast.Return), "an unparseable date means 'not 304' (handler returns False)", construct="date parse handler")
+            if not rr or not isinstance(h.body[-1], ast.Return):
+                # single-exit style (the handler records the failure and falls through): the returned value is not decided here
+                raise AnalysisError("should_return_304: the date-parse handler does not end in a return; the answer for an unparseable date is computed in an unrecognised way")
+            ck.ob("C27.conditional", fi, h, all(q.is_const(x.value, False) for x in rr), "an unparseable date means 'not 304' (handler returns False)", construct="date parse handler")
     # naive vs aware: before comparing with self.modified the parsed date is made aware
     cmps = fi.cfg.find(lambda x: isinstance(x, ast.Compare) and any(q.dotted(y) == "self.modified" for y in [x.left] + x.comparators) and not all(isinstance(o, (ast.Is, ast.IsNot)) for o in x.ops))
     ck.floor("C27.conditional", len(cmps), 1, "comparisons with self.modified")
